@@ -381,6 +381,14 @@ impl From<u32> for Inh {
     fn from(x: u32) -> Inh { Inh(x) }
 }
 
+/// A lifetime-indexed marker every type has (for higher-ranked predicates `for<'b> Self: TagL<'b>`).
+pub trait TagL<'b> {}
+impl<'b, T: ?Sized> TagL<'b> for T {}
+
+/// Implemented by generated cases for chosen (type, argument) pairs only: `where T: TrG<Self>` then holds for `Self = X<T>`
+/// and for nothing else (in particular not for `&X<T>`).
+pub trait TrG<X: ?Sized> {}
+
 /// `Sh(x)`: implements the eight standard traits like `u8` does, and in addition has *inherent* methods named like the
 /// trait methods that behave differently (and leave a trace).  Generated code that goes through the traits never reaches
 /// them; `self.f.clone()` / `a.eq(b)`-style code would.
@@ -533,6 +541,14 @@ impl From<Src> for Conv {
     fn from(s: Src) -> Conv { Conv { val: format!("src{}", s.0), via: "from_src" } }
 }
 pub const SRC7: Src = Src(7);
+/// Convertible to `Conv` through `Into` only (there is no `From<IntoOnly> for Conv`).
+#[derive(Debug, Clone, Copy, PartialEq)]
+pub struct IntoOnly(pub u8);
+#[allow(clippy::from_over_into)]
+impl Into<Conv> for IntoOnly {
+    fn into(self) -> Conv { Conv { val: format!("io{}", self.0), via: "into_only" } }
+}
+pub const INTO_ONLY: IntoOnly = IntoOnly(4);
 pub const CONV_K: Conv = Conv { val: String::new(), via: "const" };
 pub fn conv_call() -> Conv { Conv { val: "call".to_string(), via: "direct" } }
 pub fn str_call() -> &'static str { "called" }
